@@ -45,7 +45,7 @@ ALPHABETS = [
 FOREIGN = "zz"
 FORMS = ["bare", "http", "schemeless", "upper", "dot", "split", "auth", "httpdot"]
 NET_FAULTS = ["net_refused", "net_reset_on_read", "net_truncated", "net_garbage", "net_stale"]
-DISK_FAULTS = ["disk_open_error", "disk_write_error", "crash_during_write", "crash_between"]
+DISK_FAULTS = ["disk_open_error", "disk_write_error", "disk_close_error", "crash_during_write", "crash_between"]
 FAULT_KINDS = NET_FAULTS + DISK_FAULTS
 
 COMPONENTS = {
@@ -386,6 +386,8 @@ def draw_fault(frng, enabled, n_writes):
         f["which"] = frng.choice([0, 0, 1])
         if kind == "net_truncated":
             f["at"] = frng.choice([0.0, 0.3, 0.5, 0.8, 0.97, frng.random()])
+    elif kind == "disk_close_error":
+        f["keep"] = frng.choice([0.0, 0.5, 0.9, frng.random()])
     elif kind in ("disk_write_error", "crash_during_write"):
         f["at"] = frng.randint(1, max(1, n_writes))
         if kind == "crash_during_write":
@@ -1078,7 +1080,7 @@ ASSUMPTIONS = [
 ]
 NO_SEAM = (
     "injected: connection refused, reset while reading, truncated body, undecodable body, stale version, open error, write "
-    "error (ENOSPC) at the k-th write, crash at the k-th write with a torn / partially lost durable image, crash before the "
+    "error (ENOSPC) at the k-th write, I/O error reported by close() with a lost tail, crash at the k-th write with a torn / partially lost durable image, crash before the "
     "file is opened. Not injectable here: message reordering/duplication, partitions between more than two parties, clock "
     "skew, timeouts (the code has no timers, retries or concurrency), allocation failure"
 )
